@@ -251,6 +251,31 @@ impl Report {
         }
     }
 
+    /// Merges the results of the libFuzzer campaigns run by the `check` driver (one JSON object
+    /// per line in $VERIF_FUZZ_RESULTS).
+    pub fn absorb_fuzz_results(&mut self) {
+        let Ok(path) = std::env::var("VERIF_FUZZ_RESULTS") else { return };
+        let Ok(text) = std::fs::read_to_string(&path) else { return };
+        for line in text.lines() {
+            let Ok(v) = serde_json::from_str::<Value>(line) else { continue };
+            if v["property"].as_str() != Some(self.property) {
+                continue;
+            }
+            let target = v["target"].as_str().unwrap_or("?").to_string();
+            let execs = v["executions"].as_u64().unwrap_or(0);
+            self.evaluations += execs;
+            self.subs.push(json!({"sub": format!("libfuzzer_{target}"), "executions": execs, "new_coverage_units": v["new_coverage_units"],
+                "runs_requested": v["runs_requested"], "engine": "libFuzzer (cargo-fuzz, ASan), 8 instances, fresh corpus seeded from fuzz/seeds"}));
+            if let Some(r) = v["violation_replay"].as_str().filter(|s| !s.is_empty()) {
+                self.violations.push(Violation {
+                    sub: format!("libfuzzer_{target}"),
+                    reason: format!("fuzz target {target} failed its in-target oracle (see the REASON line of the driver)"),
+                    replay: PathBuf::from(r),
+                });
+            }
+        }
+    }
+
     pub fn write_evidence(&self, opts: &Opts) {
         let mut coverage = json!({
             "evaluations": self.evaluations,
